@@ -1,6 +1,7 @@
 //! Correspondence harness: interprets the line protocols of /verif/lean (Model/*Script.lean)
 //! against the real sodium-rust library, in-process, and prints one observation per line.
 mod api;
+mod conc;
 mod gc;
 mod node;
 mod txn;
@@ -30,6 +31,7 @@ fn mode_dispatch(args: &[String]) -> Result<(), String> {
         Some("api") => api::run_stdin(),
         Some("txn") => txn::run_stdin(),
         Some("api2") => api::run_stdin2(),
+        Some("conc") => conc::run_stdin(),
         _ => Err("usage: harness gc|gc-enum ...".into()),
     }
 }
